@@ -10,9 +10,9 @@ from vf import q, qlist, clist, cbool, cnat, copt, frac, fr_json
 
 ID = 'C03'
 COQ_DIR = 'C03'
-COQ_HEADER = 'From V Require Import Common.Num C03.Model C03.ModelVlle C03.ModelHist.\nOpen Scope Q_scope.'
+COQ_HEADER = 'From V Require Import Common.Num C03.Model C03.ModelVlle C03.ModelHist C03.ModelRx.\nOpen Scope Q_scope.'
 CASE_TIMEOUT = 60
-MODEL_FILES = ('Model.v', 'ModelVlle.v', 'ModelHist.v')
+MODEL_FILES = ('Model.v', 'ModelVlle.v', 'ModelHist.v', 'ModelRx.v')
 RULE = ('streams over a 7-chemical package (3 volatile, 2 gas-locked, 2 liquid/solid-locked with N_solutes 0 and 2) with 2-3 phases, '
         'random presence pattern and dyadic flows in l, g (and s), every specification pair of VLE.__call__ (T,P T,V T,H T,S T,x T,y P,V P,H P,S P,x P,y); '
         'stub stream: VLE._solve_v_fixed_point, flx.IQ_interpolation, BubblePoint.solve_Py/Ty, DewPoint.solve_Px/Tx, mixture.xH/xS/H/S/xsolve_T_at_HP/SP replaced '
@@ -20,11 +20,15 @@ RULE = ('streams over a 7-chemical package (3 volatile, 2 gas-locked, 2 liquid/s
         'real stream: database mixtures with the real solvers, every oracle output recorded and replayed through the model; LLE.__call__ write-back with stubbed '
         'solver / phase_fraction (fresh and cached branch, top_chemical swap); SLE._update_solubility, given-solubility call and single-chemical T branch; '
         'Stream.vlle with every VLE / LLE solver stubbed and flx.fixed_point replaced by plain iteration a seeded number of times (whole L/g/l array, T, P or the raise). '
+        'histories with a REACTIVE flash (gas_conversion= / liquid_conversion= with a seeded reaction among the volatile chemicals, real solvers) as an '
+        'uncompared set-up step on the same stream, followed by ordinary flashes (stubbed and real) that are compared with the model of a call on an '
+        'object that remembers the observed _dmol_vle (ModelRx.v), and _dmol_vle before / after each ordinary call; '
         'Not compared (counted): calls in which a real solver itself raised; exact ties decided by float rounding are kept out of the generators. '
         'Compared: the whole phase x chemical array, T, P, exception class, state at the raise, number of oracle calls (values 1e-9 relative, structure exact). '
         'non-trivial = the call changed the phase x chemical array or raised after mutating; distinct = distinct case hash')
 ASSUMPTIONS = ['float rounding, nan/inf are not modelled (values compared to 1e-9 relative)',
-               'reactive VLE (gas_conversion / liquid_conversion) is outside the property and the model',
+               'the reactive call itself (gas_conversion / liquid_conversion) is not modelled: in a history it is a step with an arbitrary outcome; '
+               'ordinary calls that FOLLOW it on the same VLE object are modelled and compared',
                'oracle shape contract: solvers return vectors of the length of the equilibrium index (numpy would raise otherwise)',
                'method = fixed-point (the default); the shgo method of VLE._solve_v writes F_mol_vle * result.x without clipping and relies on scipy honouring its bounds',
                'lle_nonneg: 0 <= phi and K >= 0 in the cached branch, 0 <= result <= z for the solver branch (scipy bounds / pseudo-equilibrium formula, C15)',
@@ -74,6 +78,9 @@ def env():
         _env['MW2'] = [float(x) for x in c2.MW]
         import thermosteam.equilibrium.vle as vm, thermosteam.equilibrium.lle as lm
         _env['vm'] = vm; _env['lm'] = lm
+        # reactions among the three volatile chemicals, written over a package of exactly those (the conversion handle of /repo HEAD works on
+        # the vector of the chemicals in equilibrium: Conversion.__call__ hands `material` to the reaction as it is)
+        ch3 = tmo.Chemicals(['Water', 'Ethanol', 'Methanol']); ch3.compile(); _env['ch3'] = ch3
         from thermosteam.exceptions import NoEquilibrium, InfeasibleRegion
         _env['exc'] = [(NoEquilibrium, 'VNoEq'), (InfeasibleRegion, 'VInfeasible'), (NotImplementedError, 'VNotImpl'),
                        (RuntimeError, 'VRuntime'), (AssertionError, 'VAssert'),
@@ -297,10 +304,10 @@ def gen_vlle_case(rng):
 def gen_cases(rng, tier):
     if tier == 'quick':
         n_stub, n_real, n_lle, n_sle, n_vlle = 230, 28, 40, 40, 30
-        n_sleh = 40; n_vleh = (40, 10); n_pf = (30, 40)
+        n_sleh = 40; n_vleh = (40, 10); n_pf = (30, 40); n_rx = (24, 10)
     else:
         n_stub, n_real, n_lle, n_sle, n_vlle = 3000, 300, 400, 400, 300
-        n_sleh = 400; n_vleh = (400, 60); n_pf = (300, 400)
+        n_sleh = 400; n_vleh = (400, 60); n_pf = (300, 400); n_rx = (300, 60)
     cases = [gen_vle_case(rng) for _ in range(n_stub)]
     cases += [gen_real_case(rng) for _ in range(n_real)]
     cases += [gen_lle_case(rng) for _ in range(n_lle)]
@@ -309,6 +316,7 @@ def gen_cases(rng, tier):
     cases += [gen_sleh_case(rng) for _ in range(n_sleh)]
     cases += [gen_lle_pf_case(rng) for _ in range(n_pf[0])] + [gen_pf_case(rng) for _ in range(n_pf[1])]
     cases += [gen_vleh_case(rng, 'stub') for _ in range(n_vleh[0])] + [gen_vleh_case(rng, 'real') for _ in range(n_vleh[1])]
+    cases += [gen_vleh_rx_case(rng, 'stub') for _ in range(n_rx[0])] + [gen_vleh_rx_case(rng, 'real') for _ in range(n_rx[1])]
     nb = 12 if tier == 'quick' else 100
     cases += [gen_band_case(rng, 'stub') for _ in range(2 * nb)] + [gen_band_case(rng, 'real') for _ in range(nb)]
     cases += [gen_near_bubble_case(rng) for _ in range(nb)]
@@ -629,6 +637,77 @@ def gen_vleh_case(rng, mode='stub'):
             'T0': base['T0'], 'P0': base['P0'], 'co': base['co'], 'draws': base['draws'] or [rng.random() for _ in range(8)],
             'ops': ops, 'spec': {}, 'sk': 'TP'}
 
+RXNS = [('Ethanol -> Methanol', 'Ethanol'), ('Methanol -> Water', 'Methanol'), ('Ethanol + Water -> 2 Methanol', 'Ethanol'),
+        ('Water + Methanol -> Ethanol', 'Water'), ('2 Methanol -> Ethanol + Water', 'Methanol')]
+
+def gen_vleh_rx_case(rng, mode='stub'):
+    """a history on ONE stream whose VLE object first performs a REACTIVE flash (set-up step, real solvers, not compared) and then
+    ordinary flashes (compared): ['react', 'l' | 'g', reaction, X, sk, spec]; at least two of the three volatile chemicals are present
+    so that the reactive call can reach the two-phase solver (which is what leaves _dmol_vle / _dF_mol behind)"""
+    n = len(IDS)
+    A = [0.5, 1., 2., 4., 8., 12.5, 3., 30., 10.]
+    vol = [True, True, True]
+    if rng.random() < 0.5: vol[rng.randrange(3)] = False
+    pattern = vol + [rng.random() < p for p in (0.3, 0.15, 0.3, 0.2)]
+    l = [0.] * n; g = [0.] * n; s = [0.] * n
+    for i in range(n):
+        if pattern[i]:
+            (l if rng.random() < 0.75 else g)[i] = rng.choice(A)
+    phases = rng.choice(['lg', 'lg', 'lgs'])
+    if phases == 'lgs':
+        for i in (5, 6):
+            if rng.random() < 0.5: s[i] = rng.choice(A)
+    co = lin_coefs(rng)
+    tot = [a + b for a, b in zip(l, g)]
+    def one_spec():
+        if mode == 'real':
+            c = gen_real_case(rng); return c['sk'], c['spec']
+        c = gen_vle_case(rng, 'stub'); sk = c['sk']; spec = c['spec']
+        if sk[1] in 'xy': sk = 'TP'; spec = {'T': rng.choice(TS), 'P': rng.choice(PS)}
+        if sk[1] in 'HS':
+            zero = [0.] * n
+            Hl = lin_H(co, [('l', tot), ('g', zero), ('s', s)], 350.)
+            Hg = lin_H(co, [('l', zero), ('g', tot), ('s', s)], 350.)
+            spec = dict(spec); spec[sk[1]] = Hl + rng.choice(FRACS) * (Hg - Hl)
+        return sk, spec
+    def react():
+        rk = rng.choice(['TP', 'TP', 'PV', 'PV', 'TV'])
+        if rk == 'TP': rs = {'T': rng.choice([355., 360., 365., 370.]), 'P': 101325.}
+        elif rk == 'PV': rs = {'P': rng.choice([101325., 50000.]), 'V': rng.choice([0.25, 0.5, 0.75])}
+        else: rs = {'T': rng.choice([350., 360.]), 'V': rng.choice([0.25, 0.5, 0.75])}
+        return ['react', rng.choice('lllg'), rng.randrange(len(RXNS)), rng.choice([0.125, 0.25, 0.5, 0.75]), rk, rs]
+    ops = []
+    if rng.random() < 0.3: ops.append(['vle'] + list(one_spec()))
+    ops.append(react())
+    for k in range(rng.randint(1, 3)):
+        r = rng.random()
+        if k and r < 0.2: ops.append(['redist', [rng.choice([0., 0.25, 0.5, 0.75, 1.]) for _ in range(n)]])
+        elif k and r < 0.3: ops.append(react())
+        ops.append(['vle'] + list(one_spec()))
+    return {'kind': 'vleh', 'mode': mode, 'phases': phases, 'l': l, 'g': g, 's': s, 'T0': 298.15, 'P0': 101325., 'co': co,
+            'draws': [rng.random() for _ in range(48)], 'ops': ops, 'spec': {}, 'sk': 'TP', 'rx': True}
+
+def do_react(case, s, op):
+    """the reactive call (real solvers); whatever it does to the stream is the state the history continues from, except that a state
+    outside the property's domain (a negative or non-finite flow left behind by the reactive step) is replaced by the re-loaded feed"""
+    e = env(); tmo = e['tmo']
+    eq, reactant = RXNS[op[2]]
+    rxn = tmo.Reaction(eq, reactant=reactant, X=op[3], chemicals=e['ch3'])
+    kw = dict(op[5]); kw['liquid_conversion' if op[1] == 'l' else 'gas_conversion'] = rxn
+    err = None
+    try: s.vle(**kw)
+    except Exception as ex: err = type(ex).__name__
+    data = np.concatenate([np.asarray(r.to_array(), float) for _, r in tuple(s.imol)])
+    if not np.isfinite(data).all() or (data < 0.).any() or not np.isfinite([float(s.T), float(s.P)]).all() or s.T <= 0 or s.P <= 0:
+        apply_outside_op(case, s, ['reload', 'l'])
+        if 's' in case['phases']: s.imol['s'] = np.array(case['s'], float)
+        s.T = case['T0']; s.P = case['P0']
+    return err
+
+def dmol_seen(v):
+    d = getattr(v, '_dmol_vle', None)
+    return None if d is None else fl(np.asarray(d, float))
+
 def apply_outside_op(case, s, op, keep=None):
     """what happens to the stream between two calls; returns False for a 'vle' op"""
     if op[0] == 'link':
@@ -664,7 +743,7 @@ def run_vleh(case):
     v = s.vle                      # one object for the whole history
     rec = Rec(case)
     p = install_stubs(rec, case, v) if case['mode'] == 'stub' else install_recorders(rec, v)
-    calls = []; keep = []; widen = []
+    calls = []; keep = []; widen = []; reacts = []
     try:
         for op in case['ops']:
             if op[0] == 'widen':
@@ -676,6 +755,12 @@ def run_vleh(case):
                 widen.append({'before': before, 'phys': phys, 'after': after})
                 continue
             if apply_outside_op(case, s, op, keep): continue
+            if op[0] == 'react':
+                p.undo()                  # the reactive call runs on the real solvers
+                try: err = do_react(case, s, op)
+                finally: p = install_stubs(rec, case, v) if case['mode'] == 'stub' else install_recorders(rec, v)
+                reacts.append({'raised': err, 'dmol': dmol_seen(s.vle)})
+                continue
             sk = op[1]
             c1 = dict(case, sk=sk, spec=op[2])
             spec = resolve_spec(c1, s)
@@ -685,6 +770,7 @@ def run_vleh(case):
             raised = None
             kw = {k: (np.array(val) if isinstance(val, list) else val) for k, val in spec.items()}
             v = s.vle          # as a user does: the stream hands out its (cached) VLE object at every call
+            dm0 = dmol_seen(v)
             try:
                 v(**kw)
             except Exception as ex:
@@ -694,13 +780,19 @@ def run_vleh(case):
                     else: raise
             out = {'init': init, 'final': snapshot(s), 'raised': raised, 'events': rec.events[start:], 'ticks': rec.tick, 'spec': spec, 'sk': sk}
             out.update(post_info(v, sk, spec))
+            if case.get('rx'): out['dmol'] = [dm0, dmol_seen(v)]
             calls.append(out)
     finally:
         p.undo()
-    return {'calls': calls, 'widen': widen}
+    return {'calls': calls, 'widen': widen, 'reacts': reacts}
 
 def coq_vleh(case, out):
     ts = [coq_vle(dict(case, sk=o['sk'], spec=o['spec']), o) for o in out['calls']]
+    if CHECK_FN == 'vle_check_flows':
+        for o in out['calls']:
+            if 'dmol' in o and not any(e[2] is None for e in o['events']):
+                c1 = dict(case, sk=o['sk'], spec=o['spec'])
+                ts.append(f'(dmol_kept {cfg_term()} {orc_term(c1, o)} {spec_term(c1, o)} {copt(o["dmol"][0], qlist)} {st_term(o["init"])} {copt(o["dmol"][1], qlist)})')
     if CHECK_FN == 'vle_check_flows':      # (C03 only: ModelHist.v is not among the files C04 loads)
         rank = {'L': 0, 'S': 1, 'g': 2, 'l': 3, 's': 4}
         for w in out.get('widen', []):
@@ -715,6 +807,8 @@ def oracle_vleh(case):
     s = build_stream(case); keep = []
     for op in case['ops']:
         if apply_outside_op(case, s, op, keep): continue
+        if op[0] == 'react':
+            do_react(case, s, op); continue          # set-up step: the property does not speak of reactive calls
         sk = op[1]
         c1 = dict(case, sk=sk, spec=op[2])
         spec = resolve_spec(c1, s)
@@ -1005,7 +1099,10 @@ def coq_vle(case, out):
     if any(e[2] is None for e in out['events']):
         return 'true'     # a real solver / property model raised inside the call: outside the model (oracles return values)
     raised = 'None' if out['raised'] is None else f'(Some {out["raised"]})'
-    one = lambda miss: (f'({CHECK_FN} {cfg_term()} {orc_term(case, out, miss)} {spec_term(case, out)} {st_term(out["init"])} '
+    used = 'dmol' in out and CHECK_FN == 'vle_check_flows'      # an ordinary call on an object that remembers a reactive flash
+    head = f'vle_check_flows_used {cfg_term()}' if used else f'{CHECK_FN} {cfg_term()}'
+    dm = (copt(out['dmol'][0], qlist) + ' ') if used else ''
+    one = lambda miss: (f'({head} {orc_term(case, out, miss)} {spec_term(case, out)} {dm}{st_term(out["init"])} '
                         f'{st_term(out["final"])} {raised} {cnat(out["ticks"])})')
     if not any(e[1] in ('xh', 'hp') for e in out['events']): return one('0')
     return f'({one(MISS)} && {one("(- " + MISS + ")")})'
@@ -1129,7 +1226,15 @@ def nontrivial(case, out):
 
 def classify(case, out):
     if case['kind'] == 'pf': return [f'pf:n={len(case["z"])}:' + ('error' if out['phi'] is None else 'value')]
-    if case['kind'] == 'vleh': return [f'vleh:{case["mode"]}:' + '>'.join(o['sk'] for o in out['calls'])[:40]] + [f'vleh-call:{o["sk"]}:raised={o["raised"]}' for o in out['calls']]
+    if case['kind'] == 'vleh':
+        rx = []
+        for r in out.get('reacts', []):
+            rx.append('vleh-react:' + ('raised' if r['raised'] else 'ok') + ':' + ('nothing remembered' if r['dmol'] is None else
+                      'remembers a non-zero mole change' if any(abs(x) > 1e-9 for x in r['dmol']) else 'remembers zero'))
+        for o in out['calls']:
+            if o.get('dmol') and o['dmol'][0] and any(abs(x) > 1e-9 for x in o['dmol'][0]):
+                rx.append(f'vleh-call-after-reactive:{o["sk"]}:' + ('solver-called' if any(e[1] == 'v' for e in o['events']) else 'no-solver') + f':raised={o["raised"]}')
+        return rx + [f'vleh:{case["mode"]}:' + '>'.join(o['sk'] for o in out['calls'])[:40]] + [f'vleh-call:{o["sk"]}:raised={o["raised"]}' for o in out['calls']]
     if case['kind'] == 'sleh':
         return [f'sleh:{op[0]}:{"raised" if st["raised"] else "ok"}' for op, st in zip(case['ops'], out['steps'])]
     if case['kind'] == 'vlle':
